@@ -438,8 +438,8 @@ func (w *_nodeRepr) Length() int64 {
 	case schema.UnionRepresentation_Keyed:
 		return (*_node)(w).Length()
 	case schema.UnionRepresentation_Kinded:
-		w = w.asKinded(stg, w.Kind())
-		return (*_node)(w).Length()
+		// The member presents itself according to its own representation strategy.
+		return w.asKinded(stg, w.Kind()).Length()
 	case schema.UnionRepresentation_Stringprefix:
 		return -1 // presents as a string
 	default:
